@@ -9,7 +9,7 @@ from .. import hooks, rng as vrng
 PID = "C15"
 LEVEL = "exploration"
 RULE = ("every BenchmarkFunction subclass with one cost in benchmark_functions/benchmark_robust, every accepted dimension from "
-        "{1..6,10} (Michalewicz 2,5,10): box corners, face centres, random interior, optimum neighbourhood as Python floats "
+        "{1..6,10} plus 16,17,33 (quick) / 7..80 and random 7..64 (thorough) with a reduced search budget (Michalewicz 2,5,10): box corners, face centres, random interior, optimum neighbourhood as Python floats "
         "and numpy.float64 (totality); value at documented optimum (1e-3); random + pattern-search + Nelder-Mead adversarial "
         "search for a point better than the documented optimum by >1e-3. non-trivial = evaluated point other than the "
         "optimum itself; distinct by (function, dimension, point)")
